@@ -351,7 +351,7 @@ impl<'a> TypingContext<'a> {
             .map(|item| StructItemDefinitionSignature {
               name: item.name,
               type_: type_system::subst_type(&item.type_, &subst_map),
-              is_public: item.is_public || nominal_type.id.eq(&self.current_class),
+              is_public: item.is_public || self.in_same_class(mod_ref, t_id),
             })
             .collect(),
         );
